@@ -83,6 +83,18 @@ def run(tier, seed):
             gen_problems.append({"text": t, "err": i[1][-300:]})
             continue
         real.append({"program": p, "text": t, "why": why, "impl": i, "model": m})
+    # the one point where sem/Sem.v follows the implementation against the reference ("&& and || require the expressions on each
+    # side to be boolean"): probed on the real evaluator on every run
+    probes = ["let x = true && 5;\n", 'let x = false || "s";\n', "let x = true && (1 + 1);\n"]
+    pr_res = S.run_impl(probes)
+    lenient = [t for t, r in zip(probes, pr_res) if r[0] == "ok"]
+    if lenient:
+        what = ("the evaluator returns a non-boolean right operand of && / || as it is (%s evaluates), the reference requires a boolean"
+                % lenient[0].strip())
+        if ck.is_known("C01-and-or-rhs"):
+            ck.known_finding("C01-and-or-rhs", what)
+        else:
+            real.append({"program": None, "text": lenient[0], "why": what, "impl": pr_res[0], "model": ("err", None)})
     cov["programs"] = n
     cov["evaluations"] = n
     cov["distinct_nontrivial"] = len(set(t for t, m in zip(texts, model) if m[0] in ("ok", "err")))
